@@ -281,7 +281,7 @@ PROPS = {
         "kani": [VARINT_KANI[2], VARINT_KANI[6], VARINT_KANI[7], VARINT_KANI[8], VARINT_KANI[9], FRAME_READ_20, FRAME_READ_4200, FRAME_KIND_KANI[1],
                  STREAM_HEADER_KANI[0], STREAM_KIND_KANI[1], DATAGRAM_KANI[4], CAPSULE_KANI[0], CAPSULE_KANI[1], CAPSULE_KANI[2], CAPSULE_KANI[3]]
                 + QPACK_INT_DEC + QPACK_MISC + [IDS_KANI[4], IDS_KANI[7], SETTING_ID_KANI[2]],
-        "verus": [],
+        "verus": [V("frame", pair=("proto", "p_frame_read_matches_reference_20")), V("qpack_decode", pair=("proto", "p_qpack_decode_integer_n7"))],
         "not_decided": ["Decoder::decode loop / decode_string / Settings::with_frame under Kani (containers)"],
     },
     "C12": {
@@ -289,7 +289,7 @@ PROPS = {
         "claim": "Sans-IO typestate layer: on each of the four stream roles, from an arbitrary first-frame state, the accept/reject verdict and the error code for every frame kind equal the RFC 9114 7.2 / WebTransport-draft rule table; invalid session ids -> H3_ID_ERROR, oversize -> H3_EXCESSIVE_LOAD, unknown uni stream type -> H3_STREAM_CREATION_ERROR; the 15 error codes and the reserved/registered setting ids equal their registry values.",
         "note": "Quick tier: well-formed single frames (bounded). Thorough tier: every byte string <= 14 bytes. Not decided: the driver's reaction (RemoteSettingsStream::run, handle_uni_h3_stream, missing/duplicate SETTINGS, closed critical streams) - async over quinn.",
         "kani": STREAM_KANI_QUICK[:5] + STREAM_KANI_THOROUGH + MISC_KANI[:1] + SETTING_ID_KANI[1:3],
-        "verus": [],
+        "verus": [V("frame", pair=("proto", "p_frame_read_matches_reference_20"))],
         "not_decided": ["driver-level rules: missing/repeated SETTINGS, duplicated/closed critical streams, what is put on the wire"],
     },
     "C13": {
@@ -298,7 +298,7 @@ PROPS = {
         "note": "Skip loop: Kani shows base case + one step per typestate (thorough tier, bounded); quick tier exercises one leading unknown frame on well-formed input. Unknown frames above the 4096-byte parse limit are refused like known ones (H3_EXCESSIVE_LOAD). Not decided: driver reactions to unknown unidirectional stream types (async).",
         "kani": FRAME_KIND_KANI + [FRAME_READ_20, FRAME_READ_4200] + STREAM_KANI_QUICK[:4] + STREAM_KANI_THOROUGH[:4]
                 + [STREAM_KIND_KANI[0], SETTING_ID_KANI[0], SETTING_ID_KANI[2], CAPSULE_KANI[0], CAPSULE_KANI[1]],
-        "verus": [],
+        "verus": [V("frame", pair=("proto", "p_frame_read_matches_reference_20"))],
         "not_decided": ["unknown unidirectional stream types in the worker", "ConnectStream capsule loop"],
     },
     "C14": {
@@ -315,7 +315,7 @@ PROPS = {
         "claim": "One-shot and buffered decoders of frames and stream headers agree with one reference on EVERY byte string (so they agree with each other), need-more-data exactly on proper prefixes, buffered offset unchanged unless a value is returned; the four async leaf futures satisfy one-step inductive poll contracts from ANY state - every chunking and every Pending pattern - incl. ImmediateFin iff nothing was taken and UnexpectedFin iff something was.",
         "note": "Unchecked assumption: async fn desugaring composes the awaits sequentially and keeps no state beyond the leaf futures', so chunking-independence lifts to Frame::read_async / StreamHeader::read_async / read_frame_async (the whole state machines do not scale in CBMC). GetBuffer/PutBuffer steps shown for lengths <= 8.",
         "kani": [FRAME_READ_20, FRAME_READ_4200, STREAM_HEADER_KANI[0], VARINT_KANI[9]] + ASYNC_LEAF_KANI + STREAM_KANI_THOROUGH[4:],
-        "verus": [],
+        "verus": [V("frame", pair=("proto", "p_frame_read_matches_reference_20"))],
         "not_decided": ["async composites as whole state machines"],
     },
     "C16": {
@@ -341,7 +341,7 @@ PROPS = {
         "claim": "StatusCode: every numeric constructor yields Ok(c) iff 100 <= v <= 599 with c == v (complete), is_successful iff 200..=299, FromStr accepts exactly decimal strings of values in 100..=599.",
         "note": "FromStr bounded to strings <= 5 bytes (all u16 decimals; u16::from_str trusted beyond). Header-map admission predicates (SessionRequest/SessionResponse::try_from, reserved headers) are Verus units where listed. Not decided: SessionRequest::new (url crate), server refusal codes, connect()'s reaction (async driver).",
         "kani": STATUS_KANI,
-        "verus": [],
+        "verus": [V("session")],
         "not_decided": ["SessionRequest::new / url crate", "driver reaction to refused requests"],
     },
 }
